@@ -424,8 +424,11 @@ def run(ctx):
             if lo <= nb <= hi:
                 got.append((s_, nb))
             s_ += 1
-            if s_ > seed0 + 400:
-                raise AssertionError('C04 harness: no seed with a reference run inside the batch window for %s' % d)
+            if s_ > seed0 + 60 * (len(got) + 1):
+                # no seed of this driver consumes a number of batches inside the window (a behaviour of the tree under
+                # test, not of the harness): fall back to the plain seed sequence, the execution caps bound the trees
+                got.append((seed0 + len(got), nb))
+                ctx.extra.setdefault('batch_window_not_met', []).append(d)
         return got[k][0]
     models.native_client()
     for c in cases:
